@@ -474,9 +474,14 @@ impl<SD, E: Exfiltrator> SignalIterator<SD, E> {
                 return PollResult::Signal(result);
             }
 
-            match self.signals.borrow_mut().poll_pending(has_signals) {
-                Ok(Some(pending)) => self.iter = pending,
-                Ok(None) => return PollResult::Pending,
+            // Ask the callback directly instead of going through poll_pending. That one returns
+            // None also when it notices the instance got closed in the meantime, without
+            // consulting the callback. We must not claim Pending in such case ‒ the caller might
+            // have no wakeup registered and would never poll us again.
+            let signals = self.signals.borrow_mut();
+            match has_signals(signals.get_read_mut()) {
+                Ok(true) => self.iter = signals.pending(),
+                Ok(false) => return PollResult::Pending,
                 Err(err) => return PollResult::Err(err),
             }
         }
